@@ -40,7 +40,6 @@ Example rx_old_span_ok : old_span_ok no_pandas no_contains (c_span rx_state) (sp
 Proof.
   apply old_span_ok_intro.
   - simpl. lia.
-  - intros p _. exact I.
   - intros ls E. discriminate.
 Qed.
 
@@ -100,9 +99,10 @@ Example rx_same_span_object_copied :
   = Some 100 /\ ~ In 100 (ids rx_state).
 Proof. split; [vm_compute; reflexivity | vm_compute; intuition lia]. Qed.
 
-(* ---------- the pandas mixin with default arguments (finding #11) ----------
-   Series.reindex fills new periods with NaN whatever the dtype, and the casting assignment turns NaN into
-   INT64_MIN / True / 'na': the new periods do not hold the dtype defaults 0 / False / ''. *)
+(* ---------- the pandas mixin (since fix 2658d81) ----------
+   With default arguments pandas is not consulted at all: the result is the core's (dtype defaults 0 / False / '' in new periods).
+   With a fill method pandas' Series.reindex answers (NaN where nothing can be propagated) and the casting assignment turns that NaN
+   into INT64_MIN / True / 'na' for int / bool / str series — pandas' semantics of a fill METHOD, outside the property's statement. *)
 Definition pd_like_series_reindex : span -> dtype -> list cell -> span -> option string -> pyval -> outcome (list cell) :=
   fun old _ data new _ fv =>
     Ret (map (fun p => match pos p (span_labels old) with
@@ -131,15 +131,19 @@ Definition rx_pmodel : cst :=
 Definition rx_pandas_result :=
   pandas_reindex_M no_pandas no_contains cast_tbl pd_like_series_reindex np_like_assign_cast
                    rx_pmodel ["Y"; "I"; "B"; "S"] (SRange 2001 1 3) 9 None PNone None [] [] [] [] [] [] 100.
-Theorem pandas_default_fill_refuted :
+(* formerly refuted (finding #11): with default arguments the new period now holds the dtype defaults, exactly as the core reindex *)
+Theorem pandas_default_fill_is_core :
   exists st', rx_pandas_result = Ret st'
-    /\ map (fun kv => nth 2 (s_data (snd kv)) (CV PNone)) (c_vars st')
-       = [CS "-"; CI (-1); CF FNan; CI (-9223372036854775808); CB true; CS "na"]
-    /\ (* whereas the core reindex gives the dtype defaults *)
-       option_map (fun s => map (fun kv => nth 2 (s_data (snd kv)) (CV PNone)) (c_vars s))
-                  (match model_reindex_M no_pandas no_contains cast_tbl rx_pmodel (SRange 2001 1 3) 9 PNone None [] 100 with Ret s => Some s | Raise _ => None end)
-       = Some [CS "-"; CI (-1); CF FNan; CI 0; CB false; CS ""].
+    /\ map (fun kv => nth 2 (s_data (snd kv)) (CV PNone)) (c_vars st') = [CS "-"; CI (-1); CF FNan; CI 0; CB false; CS ""]
+    /\ rx_pandas_result = model_reindex_M no_pandas no_contains cast_tbl rx_pmodel (SRange 2001 1 3) 9 PNone None [] 100.
 Proof. eexists. split; [vm_compute; reflexivity|]. split; vm_compute; reflexivity. Qed.
+(* a fill method asked for one variable only: that variable goes through pandas, the others stay the core's *)
+Example rx_pandas_method_for_one :
+  option_map (fun s => map (fun kv => nth 2 (s_data (snd kv)) (CV PNone)) (c_vars s))
+             (match pandas_reindex_M no_pandas no_contains cast_tbl pd_like_series_reindex np_like_assign_cast
+                                     rx_pmodel ["Y"; "I"; "B"; "S"] (SRange 2001 1 3) 9 None PNone None [] [] [] [] ["I"] [] 100 with Ret s => Some s | Raise _ => None end)
+  = Some [CS "-"; CI (-1); CF FNan; CI (-9223372036854775808); CB false; CS ""].
+Proof. vm_compute. reflexivity. Qed.
 
 (* the `methods` dictionary of the mixin: later keyword lists win *)
 Example rx_method_for :
@@ -164,49 +168,33 @@ Example rx_bad_fill_empty_span :
   = Some [[]; []; []; []].
 Proof. vm_compute. reflexivity. Qed.
 
-(* ---------- a tuple label of the new span against a NumPy-array old span (same root cause as C10's tuple finding):
-   `(2, 3) in np.array([2, 5])` is True (element-wise comparison, any) and the fallback lookup answers position 0, so the
-   NEW period (2, 3) receives the old value of period 2 instead of the fill ---------- *)
+(* ---------- a tuple label of the new span against a NumPy-array old span: since fix 35fe7e2 it is ONE label — a new period that
+   gets the fill (formerly refuted: it received the old value of period 2, or made the call fail with KeyError) ---------- *)
 Definition rx_arr_state : cst := mkC (SArr [LInt 2; LInt 5]) 0 [("F", mkSeries DFloat 1 [CF (FNum 3); CF (FNum (-4))])] [] false.
-Theorem reindex_arr_tuple_label_refuted :
-  exists st st' p, wf st /\ ~ In p (span_labels (c_span st))
-    /\ reindex_M no_pandas no_contains cast_tbl st (SList [p]) 9 PNone None [] 100 = Ret st'
-    /\ map (fun kv => s_data (snd kv)) (c_vars st') = [[CF (FNum 3)]]
-    /\ fill_cell cast_tbl 1 DFloat PNone = Ret (CF FNan).
+Theorem reindex_arr_tuple_label_is_new_period :
+  wf rx_arr_state /\ old_span_ok no_pandas no_contains (c_span rx_arr_state) [LPair 2 3; LPair 2 5; LInt 5]
+  /\ option_map (fun s => map (fun kv => s_data (snd kv)) (c_vars s))
+                (match reindex_M no_pandas no_contains cast_tbl rx_arr_state (SList [LPair 2 3; LPair 2 5; LInt 5]) 9 PNone None [] 100 with Ret s => Some s | Raise _ => None end)
+     = Some [[CF FNan; CF FNan; CF (FNum (-4))]].
 Proof.
-  exists rx_arr_state. eexists. exists (LPair 2 3). split; [repeat constructor|]. split; [simpl; intuition discriminate|].
-  split; [vm_compute; reflexivity|]. split; reflexivity.
+  split; [repeat constructor|]. split; [|vm_compute; reflexivity].
+  apply old_span_ok_intro; [simpl; repeat constructor; simpl; intuition discriminate | intros ls E; discriminate].
 Qed.
-(* ... and a pair that matches two periods makes the whole call fail *)
-Example rx_arr_tuple_label_KeyError : reindex_M no_pandas no_contains cast_tbl rx_arr_state (SList [LPair 2 5]) 9 PNone None [] 100 = Raise KeyError.
-Proof. vm_compute. reflexivity. Qed.
 
 (* hypotheses of model_reindex_values / pandas_loop_noop are satisfiable *)
 Example rx_model_wf : wf rx_model.
 Proof. repeat constructor. Qed.
 Example rx_model_fill : map (model_fill [("iterations", PInt 0)] (PInt 7)) ["status"; "iterations"; "Y"] = [PStr "-"; PInt 0; PInt 7].
 Proof. vm_compute. reflexivity. Qed.
-(* for a float variable pandas' NaN fill, cast back to float64, is what the core made: the mixin's loop leaves it alone *)
-Example rx_pandas_float_noop :
-  match model_reindex_M no_pandas no_contains cast_tbl rx_pmodel (SRange 2001 1 3) 9 PNone None [] 100 with
-  | Ret r => pandas_loop pd_like_series_reindex np_like_assign_cast rx_pmodel (SRange 2001 1 3) (fun _ => None) [] PNone ["Y"] r = Ret r
-  | Raise _ => False
-  end.
-Proof. vm_compute. reflexivity. Qed.
-
-(* ---------- the mixin tests and applies the fill keywords against `names` only: status / iterations given as keywords are
-   rejected under strict although they are variables of the model, and ignored otherwise ---------- *)
-Theorem pandas_status_keyword_refuted :
-  pandas_reindex_M no_pandas no_contains cast_tbl pd_like_series_reindex np_like_assign_cast
-                   rx_pmodel ["Y"; "I"; "B"; "S"] (SRange 2001 1 3) 9 None PNone (Some true) [("status", PStr "F")] [] [] [] [] [] 100 = Raise KeyError
-  /\ (exists st', pandas_reindex_M no_pandas no_contains cast_tbl pd_like_series_reindex np_like_assign_cast
-                   rx_pmodel ["Y"; "I"; "B"; "S"] (SRange 2001 1 3) 9 None PNone (Some false) [("status", PStr "F")] [] [] [] [] [] 100 = Ret st'
-                  /\ option_map (fun sr => nth 2 (s_data sr) (CV PNone)) (lookup "status" (c_vars st')) = Some (CS "-"))
-  /\ (exists st', model_reindex_M no_pandas no_contains cast_tbl rx_pmodel (SRange 2001 1 3) 9 PNone (Some true) [("status", PStr "F")] 100 = Ret st'
-                  /\ option_map (fun sr => nth 2 (s_data sr) (CV PNone)) (lookup "status" (c_vars st')) = Some (CS "F")).
-Proof.
-  split; [vm_compute; reflexivity|]. split; eexists; (split; [vm_compute; reflexivity | vm_compute; reflexivity]).
-Qed.
+(* ---------- the status / iterations keywords through the mixin (formerly refuted: ignored, and rejected under strict; fix 2658d81):
+   honoured, with and without strict, exactly as by the core model reindex ---------- *)
+Theorem pandas_status_keyword_honoured :
+  forall strict,
+  exists st', pandas_reindex_M no_pandas no_contains cast_tbl pd_like_series_reindex np_like_assign_cast
+                   rx_pmodel ["Y"; "I"; "B"; "S"] (SRange 2001 1 3) 9 None PNone (Some strict) [("status", PStr "F"); ("iterations", PInt 0)] [] [] [] [] [] 100 = Ret st'
+    /\ option_map (fun sr => nth 2 (s_data sr) (CV PNone)) (lookup "status" (c_vars st')) = Some (CS "F")
+    /\ option_map (fun sr => nth 2 (s_data sr) (CV PNone)) (lookup "iterations" (c_vars st')) = Some (CI 0).
+Proof. intros [|]; eexists; (split; [vm_compute; reflexivity | split; vm_compute; reflexivity]). Qed.
 
 (* hypotheses of reindex_then_label_get are satisfiable; reading the reindexed object by label *)
 Example rx_new_locate_spec : locate_spec (span_labels rx_new) (locate no_pandas rx_new).
@@ -224,7 +212,6 @@ Example rx_pmodel_old_span_ok : old_span_ok no_pandas no_contains (c_span rx_pmo
 Proof.
   apply old_span_ok_intro.
   - simpl. lia.
-  - intros p _. exact I.
   - intros ls E. discriminate.
 Qed.
 Example rx_names_nodup : NoDup ["Y"; "I"; "B"; "S"].
@@ -244,7 +231,6 @@ Example rx_roundtrip_mid_ok : old_span_ok no_pandas no_contains (SRange 1999 1 5
 Proof.
   apply old_span_ok_intro.
   - simpl. lia.
-  - intros p _. exact I.
   - intros ls E. discriminate.
 Qed.
 
@@ -254,7 +240,7 @@ Qed.
    matches) and the whole call fails with KeyError as soon as that label is asked for — a documented exclusion (NoDup in span_ok). *)
 Definition rx_dup_list : cst := mkC (SList [LInt 1; LInt 2; LInt 1]) 0 [("F", mkSeries DFloat 1 [CF (FNum 2); CF (FNum 4); CF (FNum 6)])] [] false.
 Example rx_dup_list_old_span_ok : old_span_ok no_pandas no_contains (c_span rx_dup_list) [LInt 1; LInt 2; LInt 3].
-Proof. apply old_span_ok_intro; [exact I | intros p _; exact I | intros ls E; discriminate]. Qed.
+Proof. apply old_span_ok_intro; [exact I | intros ls E; discriminate]. Qed.
 Example rx_dup_list_first_occurrence :
   option_map (fun s => map (fun kv => s_data (snd kv)) (c_vars s))
              (match reindex_M no_pandas no_contains cast_tbl rx_dup_list (SList [LInt 1; LInt 2; LInt 3]) 9 PNone None [] 100 with Ret s => Some s | Raise _ => None end)
